@@ -361,12 +361,13 @@ def finish(ctx, level, coverage, assumptions):
 
 
 # ---- walker: tours through a dumped transition relation -----------------
-def plan_tours(dump_file, state_key, op_of, init_of, max_tours=None, rnd=None):
+def plan_tours(dump_file, state_key, op_of, init_of, max_tours=None, rnd=None, keep=None):
     """dump_file: one JSON transition {from, op, to} per line.  Plans operation sequences such that every
     (state, operation-label) pair of the explored graph is the last step of some tour (breadth-first tree
     path to the state, then the operation).  Tours that are prefixes of other tours are merged away.
     Returns (tours, stats); a tour is (init_descriptor, [ops])."""
     edges = {}
+    alts = {}
     tos = set()
     order = []
     n = 0
@@ -387,6 +388,8 @@ def plan_tours(dump_file, state_key, op_of, init_of, max_tours=None, rnd=None):
             d = edges.setdefault(fk, {})
             if lab not in d:
                 d[lab] = (op, tk, t["to"])
+            elif d[lab][1] != tk:      # a free choice of the specification: remember every outcome
+                alts.setdefault((fk, lab), set()).add(tk)
             order.append((fk, t["from"]))
             tos.add(tk)
     # initial states: states that satisfy init_of (returns descriptor or None)
@@ -410,6 +413,10 @@ def plan_tours(dump_file, state_key, op_of, init_of, max_tours=None, rnd=None):
                 parent[tk] = (s, op, None)
                 covered_tree.add((s, lab))
                 queue.append(tk)
+            for ak in sorted(alts.get((s, lab), ())):     # the implementation decides which outcome is taken
+                if ak not in parent:
+                    parent[ak] = (s, op, None)
+                    queue.append(ak)
 
     def path(s):
         ops = []
@@ -431,10 +438,14 @@ def plan_tours(dump_file, state_key, op_of, init_of, max_tours=None, rnd=None):
                 continue   # every tour through an out-edge of tk passes through this tree edge
             ini, ops = path(s)
             tours.append((ini, ops + [op]))
+    planned = len(tours)
     if max_tours and len(tours) > max_tours:
         rnd.shuffle(tours)
+        if keep:        # tours the sampling must not drop (stratum chosen by the caller), the rest fills up
+            tours.sort(key=lambda t: 0 if keep(t[1]) else 1)
         tours = tours[:max_tours]
-    return tours, {"transitions_dumped": n, "graph_states": len(queue), "state_op_pairs": npairs, "tours": len(tours)}
+    return tours, {"transitions_dumped": n, "graph_states": len(queue), "state_op_pairs": npairs, "tours_planned": planned,
+                   "tours": len(tours)}
 
 
 # ---- replay: re-validate a recorded violation artefact against the current specification -------------------
